@@ -195,6 +195,7 @@ func msgHd(r *Rng) string {
 // ---------------------------------------------------------------- C01
 
 func (g *Gen) genC01() {
+	g.exhResume("C01", "msg")
 	r := g.r
 	n := g.budget(1500, 40000)
 	for i := 0; i < n; i++ {
@@ -222,6 +223,7 @@ func (g *Gen) genC01() {
 // ---------------------------------------------------------------- C02
 
 func (g *Gen) genC02() {
+	g.exhResume("C02", "na tp hl num sq fl")
 	r := g.r
 	n := g.budget(4000, 120000)
 	for i := 0; i < n; i++ {
@@ -248,6 +250,7 @@ func (g *Gen) genC02() {
 var suffixes = []string{" ", "\t", "\r", "\n", "\r\n", "\r\n ", "\r\nX", "0", "9", "\"", "\\", ";", ",", "=", "a", ":", "<", ">", "\r\n\r\n", "xyz\r\n"}
 
 func (g *Gen) genC03() {
+	g.exhStable("C03", "")
 	r := g.r
 	n := g.budget(2500, 80000)
 	for i := 0; i < n; i++ {
@@ -422,6 +425,7 @@ func (g *Gen) genC04() {
 // ---------------------------------------------------------------- C11
 
 func (g *Gen) genC11() {
+	g.exhShift("C11", "")
 	r := g.r
 	n := g.budget(2500, 80000)
 	for i := 0; i < n; i++ {
@@ -502,6 +506,7 @@ func (g *Gen) genC11() {
 // ---------------------------------------------------------------- C12
 
 func (g *Gen) genC12() {
+	g.exhReset("C12", "")
 	r := g.r
 	n := g.budget(2500, 80000)
 	for i := 0; i < n; i++ {
